@@ -3,7 +3,7 @@ from ..ir import load_program, strip_casts, norm_callee, ExternFn
 from ..build import AnalysisBroken
 from ..util import resolve_ptr, backward_slice, const_int
 from ..effects import Effects, slot_call, success_points, reachable_after
-from ..errflow import ErrModel, ALLOC_EXT, ALLOC_PROJECT, ret_values
+from ..errflow import ErrModel, ALLOC_EXT, ALLOC_PROJECT, ret_values, ret_sources, consistent_reach, failure_edges
 
 TOOLS = ("gensquashfs", "tar2sqfs", "sqfs2tar", "rdsquashfs")
 
@@ -370,56 +370,29 @@ def rule_cleanup(chk, prog, tool):
             chk.ok("K1-cleanup", "%s:cleanup-unlinks" % tool, un[0], "the output file is unlinked whenever status != EXIT_SUCCESS")
         else:
             chk.violation("K1-cleanup", "%s:cleanup-unlinks" % tool, g, "sqfs_writer_cleanup does not unlink the output on failure")
-    # exit status: constant 0 is returned only from blocks no failure edge can reach
-    for r in main.rets():
-        v = r.ops[0]
-        zero_preds = []
-        if v.is_inst and v.op == "phi":
-            for val, pred in zip(v.ops, v.x["inc"]):
-                if val.is_const and val.is_int and val.sval == 0:
-                    zero_preds.append(pred)
-        elif v.is_const and v.is_int and v.sval == 0:
-            zero_preds.append(r.bb)
-        elif v.is_inst and v.op == "phi" is False:
-            pass
-        # status may be carried by a phi elsewhere (status variable): follow one level
-        for p in list(zero_preds):
-            pass
-        fail_edges = []
-        for c in main.calls():
-            is_err = em.call_is_err(c)
-            isptr = c.ty.endswith("*") and c.callee and prog.fn(c.callee, main.unit) is not None
-            if not (is_err or isptr):
-                continue
-            for u in main.uses.get(c, []):
-                if u.op != "icmp":
-                    continue
-                z = u.ops[1]
-                if not (z.is_const and (z.is_null or (z.is_int and z.sval == 0))):
-                    continue
-                for br in main.uses.get(u, []):
-                    if br.op != "br" or len(br.x["succ"]) != 2:
-                        continue
-                    if is_err and u.pred in ("ne", "slt"):
-                        fail_edges.append((c, br.x["succ"][0]))
-                    elif is_err and u.pred == "eq":
-                        fail_edges.append((c, br.x["succ"][1]))
-                    elif isptr and u.pred == "eq":
-                        fail_edges.append((c, br.x["succ"][0]))
-                    elif isptr and u.pred == "ne":
-                        fail_edges.append((c, br.x["succ"][1]))
-        for p in zero_preds:
-            bad = None
-            for (c, fe) in fail_edges:
-                if main.reaches(fe, p):
-                    bad = c
-                    break
-            inst = "%s:exit-0" % tool
-            if bad is None:
-                chk.ok("K1-status", inst, p.term, "exit status 0 is unreachable from all %d failure edges in main" % len(fail_edges))
-            else:
-                chk.violation("K1-status", inst, bad, "after %s failed, main can still reach the block that selects exit status "
-                              "0" % (norm_callee(bad.callee) or "a call"))
+    # exit status: constant 0 is selected only in blocks no failure edge can reach
+    zero_blocks = {b for (v, b) in ret_sources(main) if v.is_const and v.is_int and v.sval == 0}
+    fes = []
+    for c in main.calls():
+        is_err = em.call_is_err(c)
+        isptr = c.ty.endswith("*") and c.callee is not None and prog.fn(c.callee, main.unit) is not None
+        if is_err:
+            fes += [(c, s_, fact) for (s_, fact) in failure_edges(main, c)]
+        elif isptr:
+            fes += [(c, s_, fact) for (s_, fact) in failure_edges(main, c, pointer=True)]
+    inst = "%s:exit-0" % tool
+    if not zero_blocks:
+        chk.broke("main of %s never returns the constant 0" % tool)
+    bad = None
+    for (c, s_, fact) in fes:
+        if consistent_reach(main, s_, c, fact, zero_blocks):
+            bad = c
+            break
+    if bad is None:
+        chk.ok("K1-status", inst, main, "exit status 0 is unreachable from all %d failure edges in main" % len(fes))
+    else:
+        chk.violation("K1-status", inst, bad, "after %s failed, main can still reach the block that selects exit status 0" % (
+            norm_callee(bad.callee) or "a call"))
 
 
 def _edge_call_zero(f, call, block):
@@ -432,7 +405,7 @@ def _edge_call_zero(f, call, block):
 
 
 def rule_submit(chk, prog):
-    """C13-e: a failing submit is propagated by the block processor"""
+    """C13-e: a failing submit makes the block processor return non-zero"""
     n = 0
     for f in prog.functions():
         for c in f.calls():
@@ -440,12 +413,14 @@ def rule_submit(chk, prog):
                 n += 1
                 chk.analysed(f)
                 inst = "%s:submit" % f.name
-                vals = set(id(v) for v in ret_values(f))
-                flows = id(c) in vals or any(id(x) in vals for x in _forward(f, c))
-                if flows:
-                    chk.ok("E1-submit", inst, c, "status of submit is returned to the caller")
+                zero_blocks = {b for (v, b) in ret_sources(f) if v.is_const and v.is_int and v.sval == 0}
+                fe = failure_edges(f, c)
+                bad = [s_ for (s_, fact) in fe if consistent_reach(f, s_, c, fact, zero_blocks)]
+                if fe and not bad:
+                    chk.ok("E1-submit", inst, c, "on the failure edge of submit the function cannot return 0")
                 else:
-                    chk.violation("E1-submit", inst, c, "a failing thread_pool submit is not propagated")
+                    chk.violation("E1-submit", inst, c, "a failing thread_pool submit is not propagated (the function can "
+                                  "still return 0, or the result is not tested)")
     if n == 0:
         chk.broke("no call through thread_pool_t.submit found")
 
@@ -493,6 +468,7 @@ def run(chk):
     chk.floor("E3", 120)
     chk.floor("K1-cleanup", 6)
     chk.floor("K1-status", 4)
+    chk.floor("E1-submit", 1)
     controls(chk)
 
 
